@@ -7,11 +7,15 @@ package main
 // (round, sender, kind) taken from the messages that party receives in an honest reference run.  The handler must turn
 // the panic into a clean end of the session (handler.go: recoverToAbort, under the lock).
 //
+// In a third of the plans the panic strikes later: the message is verified and stored, and Finalize of that round panics
+// (round code reading several parties' inputs).
+//
 // (1) sequential form (c17History): the panicking message sits at a random point of a random API history; oracles of
-//     c17History plus: the call that processes the message ends the running session with the panic error and nobody
-//     named.  Model replay: Model/Handler.v has NO event for a recovered panic -- the message is replayed as an invalid one
-//     (m_valid = false), which predicts the same end state except for the culprit list (model: the sender; code: nobody,
-//     by design, see the comment in MultiHandler.Accept); that field is masked from the recovered panic on.
+//     c17History plus: the call in which the panic fires ends the running session with the panic error and nobody
+//     named.  Model replay: the message carries the model's panic flag (Model/Handler.v m_panic: 1 = the round code panics
+//     while verifying / storing it, 2 = in Finalize of its round; pump.go Env.Panics) and the FULL observation is compared
+//     after every call: round reached, result class, culprits (none), error kind (7 = recovered panic), messages forwarded
+//     before the panic, abort notice, closes, queue occupancy (the message panicked on stays stored), view digests.
 // (2) concurrent form (c17PanicConcurrent; run by C17 and, under the race detector, by C17RACE): while two goroutines
 //     deliver messages to the handler, others call Result / CanAccept / Stop / Accept on it.  The value panicked with yields
 //     when it is formatted (i.e. while the handler is recovering): it wakes a goroutine that calls Stop and Result, and
@@ -32,16 +36,15 @@ import (
 	"github.com/taurusgroup/multi-party-sig/pkg/party"
 	"github.com/taurusgroup/multi-party-sig/pkg/protocol"
 	"github.com/taurusgroup/multi-party-sig/pkg/verifhook"
-
-	"verifharness/sx"
 )
 
-const c17PanicErrPrefix = "panic while processing message"
+const c17PanicErrPrefix = recoveredPanicPrefix
 
 type c17PanicPoint struct {
 	Round int    `json:"round"`
 	From  string `json:"from"`
 	Bcast bool   `json:"broadcast"`
+	Fin   bool   `json:"finalize,omitempty"` // the message is accepted; Finalize of its round panics
 }
 
 func (p c17PanicPoint) String() string {
@@ -49,7 +52,18 @@ func (p c17PanicPoint) String() string {
 	if p.Bcast {
 		k = "bc"
 	}
+	if p.Fin {
+		k += "/finalize"
+	}
 	return fmt.Sprintf("%s/r%d/%s", p.From, p.Round, k)
+}
+
+// flag: the model's panic flag for the message this point names
+func (p c17PanicPoint) flag() int {
+	if p.Fin {
+		return 2
+	}
+	return 1
 }
 
 func (p c17PanicPoint) matches(m *protocol.Message) bool {
@@ -65,7 +79,7 @@ type c17PanicPlan struct {
 func (pl *c17PanicPlan) Fired() int { return int(atomic.LoadInt32(&pl.fired)) }
 
 func (pl *c17PanicPlan) maybe(r verifhook.RoundSession, msg verifhook.RoundMessage, bcast bool) {
-	if pl.Pt.Bcast == bcast && int(r.Number()) == pl.Pt.Round && string(msg.From) == pl.Pt.From {
+	if !pl.Pt.Fin && pl.Pt.Bcast == bcast && int(r.Number()) == pl.Pt.Round && string(msg.From) == pl.Pt.From {
 		atomic.AddInt32(&pl.fired, 1)
 		panic(pl.Val)
 	}
@@ -84,6 +98,11 @@ func (p c17PanicProxy) VerifyMessage(msg verifhook.RoundMessage) error {
 }
 
 func (p c17PanicProxy) Finalize(out chan<- *verifhook.RoundMessage) (verifhook.RoundSession, error) {
+	if p.plan.Pt.Fin && int(p.RoundSession.Number()) == p.plan.Pt.Round {
+		// the handler calls Finalize only when every message of the round is in: the one the plan names has been verified and stored
+		atomic.AddInt32(&p.plan.fired, 1)
+		panic(p.plan.Val)
+	}
 	next, err := p.RoundSession.Finalize(out)
 	if next == p.RoundSession {
 		return p, err
@@ -159,25 +178,6 @@ func c17PanicPoints(ref *Sim) map[party.ID][]c17PanicPoint {
 	return out
 }
 
-// c17MaskCulpritsAfterPanic: normalisation for the model replay (see the header): once the real handler reports the
-// recovered-panic error, the culprit lists are not compared.
-func c17MaskCulpritsAfterPanic(n *Node) func(i int, model, real sx.V) (sx.V, sx.V) {
-	return func(i int, model, real sx.V) (sx.V, sx.V) {
-		if i >= len(n.Obs) || !strings.HasPrefix(n.Obs[i].ErrText, c17PanicErrPrefix) {
-			return model, real
-		}
-		mask := func(v sx.V) sx.V {
-			if v.Kind != 2 || len(v.L) != 11 {
-				return v
-			}
-			c := append([]sx.V{}, v.L...)
-			c[2] = sx.List()
-			return sx.List(c...)
-		}
-		return mask(model), mask(real)
-	}
-}
-
 // ---------------------------------------------------------------------------------------------
 // concurrent form
 
@@ -239,6 +239,7 @@ func (c *ctx) c17PanicSessionRun(sp0 SessionSpec, pts map[party.ID][]c17PanicPoi
 		return
 	}
 	pt := pts[victim][(it/(2*len(ids)))%len(pts[victim])]
+	pt.Fin = it%4 == 3 // every fourth session: the message is accepted and Finalize of its round panics
 	pv := &c17YieldValue{recovering: make(chan struct{}), release: make(chan struct{}), wait: 30 * time.Millisecond}
 	plan := &c17PanicPlan{Pt: pt, Val: pv}
 	sp := c17WithPanic(sp0, victim, plan)
